@@ -136,3 +136,59 @@ Fixpoint unescape_subsection (l : bytes) : bytes :=
    _parse_string: everything after the first '=' *)
 Definition setting_line (key v : bytes) : bytes := TAB :: key ++ [SP; 61; SP] ++ format_string v ++ [LF].
 Definition value_part (v : bytes) : bytes := SP :: format_string v ++ [LF].
+
+(* ---------- CaseInsensitiveOrderedMultiDict ---------- *)
+Definition lower_byte (c : Z) : Z := if (65 <=? c) && (c <=? 90) then c + 32 else c.
+Definition lower (k : bytes) : bytes := map lower_byte k.
+
+Definition kv : Type := bytes * bytes.
+
+(* a Python dict keyed by byte strings: insertion ordered, update in place *)
+Fixpoint aget (k : bytes) (l : list kv) : option bytes :=
+  match l with [] => None | (k', v) :: r => if bytes_beq k k' then Some v else aget k r end.
+Fixpoint aset (k v : bytes) (l : list kv) : list kv :=
+  match l with
+  | [] => [(k, v)]
+  | (k', v') :: r => if bytes_beq k k' then (k', v) :: r else (k', v') :: aset k v r
+  end.
+Fixpoint adel (k : bytes) (l : list kv) : list kv :=
+  match l with [] => [] | (k', v') :: r => if bytes_beq k k' then r else (k', v') :: adel k r end.
+
+Record md := { md_real : list kv; md_keyed : list kv }.
+Definition md_init : md := {| md_real := []; md_keyed := [] |}.
+
+Definition other_key (lk : bytes) (e : kv) : bool := negb (bytes_beq (lower (fst e)) lk).
+
+Inductive mop := MAdd (k v : bytes) | MSet (k v : bytes) | MDel (k : bytes).
+
+(* returns the new state and whether KeyError was raised *)
+Definition md_step (s : md) (o : mop) : md * bool :=
+  match o with
+  | MAdd k v => ({| md_real := md_real s ++ [(k, v)]; md_keyed := aset (lower k) v (md_keyed s) |}, false)
+  | MSet k v => ({| md_real := filter (other_key (lower k)) (md_real s) ++ [(k, v)];
+                    md_keyed := aset (lower k) v (md_keyed s) |}, false)
+  | MDel k => match aget (lower k) (md_keyed s) with
+              | None => (s, true)
+              | Some _ => ({| md_real := filter (other_key (lower k)) (md_real s);
+                              md_keyed := adel (lower k) (md_keyed s) |}, false)
+              end
+  end.
+
+Definition md_run (ops : list mop) : md := fold_left (fun s o => fst (md_step s o)) ops md_init.
+
+(* the specification reads only the ordered list of pairs *)
+Fixpoint last_val (lk : bytes) (real : list kv) : option bytes :=
+  match real with
+  | [] => None
+  | e :: r => match last_val lk r with
+              | Some v => Some v
+              | None => if bytes_beq (lower (fst e)) lk then Some (snd e) else None
+              end
+  end.
+Definition all_vals (lk : bytes) (real : list kv) : list bytes :=
+  map snd (filter (fun e => bytes_beq (lower (fst e)) lk) real).
+
+(* observers as the class implements them *)
+Definition md_getitem (s : md) (k : bytes) : option bytes := aget (lower k) (md_keyed s).
+Definition md_get_all (s : md) (k : bytes) : list bytes := all_vals (lower k) (md_real s).
+Definition md_len (s : md) : Z := zlen (md_keyed s).
